@@ -271,7 +271,10 @@ def binop_once(spec, res, a, b, op, coords, pncbo, label):
 
 EXPRS = ['{a} * 2', '{a} + {b}', 'np.abs({a}) - 1.5', '{a} / 4.', '-{a}',
          'np.sqrt(np.abs({a}))', '{a} * {b} + {a}', '{a} ** 2',
-         'np.where({a} > 1, {a}, 0)', '{a}[:] * 0 + ATTR']
+         'np.where({a} > 1, {a}, 0)', '{a}[:] * 0 + ATTR',
+         # values that are plain numpy.ma arrays (not file variables)
+         'np.ma.masked_less({a}[...], 0.5) * 10',
+         'np.ma.masked_greater(np.asarray({a}[...]), 1.) + {b}[...]']
 
 
 def run_eval(spec, res):
